@@ -9,9 +9,11 @@
 //@@ include xcheck.rs
 //@@ include opspec.rs
 //@@ include tokpart.rs
+//@@ include diffablestr.rs
 //@@ include remap.rs
 //@@ include reconstruct.rs
 //@@ props ^SliceRemapper::|^TextDiffRemapper::|^lemma_slice|^lemma_hyp_contig$|^lemma_cat_|^lemma_contig_mono$|^lemma_lsum_mono$ : C17
+//@@ props ^lemma_tokpart_|^DiffableStrRef for T::as_diffable_str$ : C04 C17
 //@@ props ^lemma_reconstruct|^lemma_expand_indices : C04 C17
 //@@ props ^lemma_script_|^lemma_xrun_ops$|^lemma_equal_ok_of_rel$|^lemma_proj_|^lemma_op_indices$|^lemma_op_values$|^lemma_side_|^lemma_psum_ : C04 C17
 fn main() {}
